@@ -64,6 +64,15 @@ template<int N> static void add_conv(ChaiScript_Basic &c, int k) {
   c.add(type_conversion<Src<N>, Tgt<N>>([k](const Src<N> &) { return Tgt<N>{k}; }));
 }
 
+// registered type names: the same name may denote a different C++ type in each engine
+template<int N> struct TyTag {};
+static int tyidx(const Type_Info &ti) {
+  if (ti.bare_equal(user_type<TyTag<0>>())) return 0;
+  if (ti.bare_equal(user_type<TyTag<1>>())) return 1;
+  if (ti.bare_equal(user_type<TyTag<2>>())) return 2;
+  return -1;
+}
+
 constexpr int NSLOTS = 6;
 alignas(64) static unsigned char g_fixed[NSLOTS][sizeof(ChaiScript_Basic)];
 static ChaiScript_Basic *g_eng[NSLOTS] = {};
@@ -120,10 +129,11 @@ int main(int argc, char **argv) {
           g_eng[slot]->add(fun([]() { return Src<0>(); }), "mk_ca");
           g_eng[slot]->add(fun([]() { return Src<1>(); }), "mk_cb");
           g_eng[slot]->add(fun([]() { return Src<2>(); }), "mk_cc");
+          g_eng[slot]->add(fun(&tyidx), "tyidx");
         });
         continue;
       }
-      auto parts = split(op, ':', kind == "probe" ? 5 : ((kind == "addfn" || kind == "addconv") ? 5 : 4));
+      auto parts = split(op, ':', kind == "probe" ? 5 : ((kind == "addfn" || kind == "addconv" || kind == "addtype") ? 5 : 4));
       const int thr = std::stoi(parts[2]);
       ChaiScript_Basic *chai = g_eng[slot];
       if (kind == "destroy") {
@@ -156,6 +166,17 @@ int main(int argc, char **argv) {
             if (parts[3] == "ca") add_conv<0>(*chai, k);
             else if (parts[3] == "cb") add_conv<1>(*chai, k);
             else add_conv<2>(*chai, k);
+            return "";
+          });
+          if (o.cls != "ok") failures.push_back("definition-failed|" + step + "|" + o.cls + " " + o.what.substr(0, 150));
+        });
+      } else if (kind == "addtype") {
+        on_thread(thr, [&] {
+          int k = std::stoi(parts[4]);
+          vh::Outcome o = vh::classify([&]() -> std::string {
+            if (k == 0) chai->add(user_type<TyTag<0>>(), parts[3]);
+            else if (k == 1) chai->add(user_type<TyTag<1>>(), parts[3]);
+            else chai->add(user_type<TyTag<2>>(), parts[3]);
             return "";
           });
           if (o.cls != "ok") failures.push_back("definition-failed|" + step + "|" + o.cls + " " + o.what.substr(0, 150));
